@@ -1591,8 +1591,9 @@ _FLOAT = (None, torch.float64, torch.float32, torch.float16)
 class symbolic_factories:
     """context manager: torch.zeros/ones/empty/full/eye/tensor/as_tensor return SymTensor for float dtypes."""
 
-    def __init__(self, default_float=True):
+    def __init__(self, default_float=True, bool_symbolic=False):
         self.default_float = default_float
+        self.bool_symbolic = bool_symbolic
 
     def __enter__(self):
         R = _REAL
@@ -1601,8 +1602,10 @@ class symbolic_factories:
             def f(*size, dtype=None, device=None, requires_grad=False, out=None, **kw):
                 if dtype in _FLOAT:
                     return SymTensor(_full(_shape_arg(size), fill))
-                if dtype == torch.bool and False:
-                    pass
+                if dtype == torch.bool and self.bool_symbolic:
+                    out = np.empty(_shape_arg(size), dtype=object)
+                    out[...] = z3.BoolVal(bool(fill))
+                    return SymTensor(out, True)
                 return R[name](*size, dtype=dtype, **kw)
 
             return f
